@@ -136,6 +136,13 @@ def place(shape, deps):
             kids.append(gen.SubTag("x-card", dep) if i % 3 == 0 else ht.div(gen.SubTag("x-card", ht.span(dep), "t")) if i % 3 == 1
                         else gen.SubTag("x-outer", gen.SubTag("x-inner", dep)))
         return ht.div(*kids) if len(d) % 2 else ht.TagList(ht.p("lead"), *kids)
+    if shape == "jsx_component":
+        # inside a JSX component (children at two depths and a tag-valued prop); the conversion result carries them in order
+        from ..loader import jsx_mod
+
+        k3 = len(d) // 3
+        comp = jsx_mod.jsx_tag_create("Deps.Holder")(*d[:k3], ht.div("in a tag", *d[k3:2 * k3]), jsx_mod.jsx_tag_create("Inner")(*d[2 * k3:]))
+        return ht.div("lead", comp).tagify()
     if shape == "appended":
         t = ht.div()
         for dep in d:
@@ -147,7 +154,7 @@ def place(shape, deps):
     raise ValueError(shape)
 
 
-SHAPES = ["flat_list", "deep_chain", "scattered", "nested_containers", "tag_root", "appended", "random_tree", "assigned", "tag_subclasses"]
+SHAPES = ["flat_list", "deep_chain", "jsx_component", "scattered", "nested_containers", "tag_root", "appended", "random_tree", "assigned", "tag_subclasses"]
 
 
 def same_ids(a, b):
@@ -179,14 +186,28 @@ def check_seq(ctx, seq, shapes=SHAPES, share=False):
     for shape in shapes:
         root = place(shape, deps)
         got = root.get_dependencies()
+        if shape == "jsx_component":
+            got = [x for x in got if x.name not in ("react", "react-dom")]     # (what the component itself brings)
         ctx.count("oracle.resolution")
         idx = {id(d): i for i, d in reversed(list(enumerate(deps)))}
         w = dict(wit, shape=shape, got=[(d.name, str(d.version), idx.get(id(d), -1)) for d in got],
                  want=[(d.name, str(d.version), idx.get(id(d), -1)) for d in want])
-        if not same_ids(got, want):
+        if shape == "jsx_component":
+            # (the conversion works on copies of the component's nodes: compared by value)
+            if [(x.name, str(x.version)) for x in got] != [(x.name, str(x.version)) for x in want] or any(a != b for a, b in zip(got, want)):
+                ctx.violation(_classify(got, want, deps), "get_dependencies() of a converted JSX component is not the reference resolution", w)
+                return False
+        elif not same_ids(got, want):
             ctx.violation(_classify(got, want, deps), "get_dependencies() in shape %s is not the reference resolution" % shape, w)
             return False
         raw = root.get_dependencies(dedup=False)
+        if shape == "jsx_component":
+            raw = [x for x in raw if x.name not in ("react", "react-dom")]
+            ctx.state("shapes", shape)
+            if [(x.name, str(x.version)) for x in raw] != [(x.name, str(x.version)) for x in deps] or any(a != b for a, b in zip(raw, deps)):
+                ctx.violation("dedup-false-not-document-order", "get_dependencies(dedup=False) of a converted JSX component dropped or reordered", w)
+                return False
+            continue
         if isinstance(root, ht.Tag) and not same_ids(root.get_dependencies(False), raw):
             ctx.violation("dedup-false-not-document-order", "Tag.get_dependencies(False) (positional) differs from dedup=False", w)
             return False
@@ -204,6 +225,14 @@ def check_seq(ctx, seq, shapes=SHAPES, share=False):
         if not same_ids(again, got):
             ctx.violation("resolution-not-idempotent", "resolving the resolved list changed it", w)
             return False
+        if ctx.rng.random() < 0.3:
+            # the same content as a document (items of a list root become the document's top-level content)
+            doc = ht.HTMLDocument(*list(root)) if isinstance(root, ht.TagList) else ht.HTMLDocument(root)
+            dd = doc.render()["dependencies"]
+            ctx.count("oracle.document_resolution")
+            if [(x.name, str(x.version)) for x in dd] != [(x.name, str(x.version)) for x in want] or any(a != b for a, b in zip(dd, want)):
+                ctx.violation("resolution-order", "HTMLDocument.render()['dependencies'] in shape %s differs from the resolved list" % shape, w)
+                return False
         rd = root.render()["dependencies"]
         if [(d.name, str(d.version)) for d in rd] != [(d.name, str(d.version)) for d in want] or any(a != b for a, b in zip(rd, want)):
             ctx.violation("render-deps-differ", "render()['dependencies'] in shape %s differs from the resolved list (by value)" % shape, w)
